@@ -16,7 +16,7 @@ use crate::oracle::page::total_len;
 use crate::oracle::vsign::*;
 use crate::repr::M;
 
-pub const RULE_C10: &str = "reply scripts over a 43-symbol alphabet (13 state reports x own/foreign address, 6 acknowledgements x own/foreign address - which includes wrong-operation acknowledgements -, no reply, goodbye, an unknown frame, an echo of the message just sent, bus error - materialised as a plain error, io::Error(Interrupted), FrameError::Io(Interrupted), io TimedOut or WouldBlock depending on the job) enumerated exhaustively by systematic re-execution: the operation is re-run on a fresh scripted bus and the script is extended by every symbol whenever the controller asks for one more reply, to the natural end of configure, configure_if_needed, send_pages, show_loaded_page, load_next_page and shut_down (page-switch polling cut at depth 7 quick / 9 thorough), for several sign types and (own, foreign) address pairs; plus proptest random scripts (70 % 'continue' replies) for larger sign types and 1-2 page lists, also as sequences of 2..5 operations on ONE Sign object (each operation's slice of the conversation judged on its own). At every node the emitted message sequence and - at leaves - the outcome class are compared with a reference controller simulation. Non-trivial = a script with at least one reply that is not the happy-path reply; distinct by hash of (operation, configuration, script)";
+pub const RULE_C10: &str = "reply scripts over a 46-symbol alphabet (13 state reports x own/foreign address, 6 acknowledgements x own/foreign address - which includes wrong-operation acknowledgements -, no reply, goodbye, a state query / pixels-complete / goodbye carrying the foreign address, an unknown frame, an echo of the message just sent, bus error - materialised depending on the job as a plain error, io::Error of 4 kinds, FrameError::Io, the frame decoder's BadChecksum / InvalidFrame / FrameDataMismatch, or a boxed SignError::UnexpectedResponse / SignError::Bus) enumerated exhaustively by systematic re-execution: the operation is re-run on a fresh scripted bus and the script is extended by every symbol whenever the controller asks for one more reply, to the natural end of configure, configure_if_needed, send_pages, show_loaded_page, load_next_page and shut_down (page-switch polling cut at depth 7 quick / 9 thorough), for several sign types and (own, foreign) address pairs; plus proptest random scripts (70 % 'continue' replies) for larger sign types and lists of 0-3 pages (a quarter of them with pages of sizes other than the sign's own, mixed in one list), also as sequences of 2..5 operations on ONE Sign object (each operation's slice of the conversation judged on its own). At every node the emitted message sequence and - at leaves - the outcome class are compared with a reference controller simulation. Non-trivial = a script with at least one reply that is not the happy-path reply; distinct by hash of (operation, configuration, script)";
 pub const RULE_C11: &str = "the same conversations as C10 (exhaustive reply-script trees by systematic re-execution, random scripts, several addresses and sign types) judged without the reference conversation, by invariants on the transcript: I1 success only after this sign's 'received' report concluded the last transfer attempt, I2 fail-stop after a bus error or a reply the protocol does not allow at that point (with the matching error class), I3 at most three transfer attempts and retries only after this sign's 'failed' report, I4 every emitted addressed message carries the controller's address, I5 reports from another address are never taken as this sign's. Non-trivial = a script with at least one non-happy-path reply; distinct by hash";
 pub const ASSUMPTIONS_C10: &[&str] = &["the reference controller in oracle/controller.rs is a correct reading of the documented protocol (doc comments of configure, configure_if_needed, send_pages, load_next_page, show_loaded_page, shut_down and of the Message kinds)"];
 pub const ASSUMPTIONS_C11: &[&str] = &["the invariants are keyed on local context only (the previous exchange), so they do not depend on the reference conversation of C10"];
@@ -42,11 +42,19 @@ enum OnExhausted {
 
 fn make_bus_error(kind: u8, what: &str) -> Box<dyn std::error::Error + Send + Sync> {
     use std::io::{Error, ErrorKind};
-    match kind % 5 {
+    // the concrete type of a bus's error must not matter to the controller: whatever the bus returns is a bus failure
+    match kind % 10 {
         1 => Box::new(Error::new(ErrorKind::Interrupted, what.to_string())),
         2 => Box::new(flipdot_core::FrameError::from(Error::new(ErrorKind::Interrupted, what.to_string()))),
         3 => Box::new(Error::new(ErrorKind::TimedOut, what.to_string())),
         4 => Box::new(Error::new(ErrorKind::WouldBlock, what.to_string())),
+        // what a serial bus returns for a garbled reply line: the frame decoder's own errors
+        5 => Box::new(flipdot_core::Frame::from_bytes(b":00000000FF").expect_err("bad checksum")),
+        6 => Box::new(flipdot_core::Frame::from_bytes(b"\x00garbage").expect_err("not a frame")),
+        7 => Box::new(flipdot_core::Frame::from_bytes(b":0200000000FE").expect_err("length mismatch")),
+        // a bus that relays another controller: its error is the controller's own error type
+        8 => Box::new(SignError::UnexpectedResponse { expected: "relayed".into(), actual: what.to_string() }),
+        9 => Box::new(SignError::Bus { source: Box::new(Error::new(ErrorKind::BrokenPipe, what.to_string())) }),
         _ => what.to_string().into(),
     }
 }
@@ -141,10 +149,20 @@ pub struct ConvCase {
     pub bus_error_kind: u8,
 }
 
+/// dimensions of page p of the case: the sign's own size, or (a quarter of the cases) the size of another sign type,
+/// different from page to page - the controller transfers whatever pages it is given
+fn page_dims(c: &ConvCase, p: u8) -> (u32, u32) {
+    let t = if c.page_seed % 4 == 3 { (c.sign_type as usize + 1 + 3 * p as usize) % 11 } else { c.sign_type as usize % 11 };
+    let (_, _, _, w, h) = TYPES[t];
+    (w, h)
+}
+
 fn make_pages(c: &ConvCase) -> Vec<Vec<u8>> {
-    let (_, _, _, w, h) = TYPES[c.sign_type as usize % 11];
     (0..c.pages)
-        .map(|p| (0..total_len(w, h)).map(|i| h64(&(c.page_seed, p, i as u64)) as u8).collect())
+        .map(|p| {
+            let (w, h) = page_dims(c, p);
+            (0..total_len(w, h)).map(|i| h64(&(c.page_seed, p, i as u64)) as u8).collect()
+        })
         .collect()
 }
 
@@ -162,7 +180,7 @@ fn execute(c: &ConvCase, stop_when_exhausted: bool) -> Result<Run, String> {
 /// Run several operations one after the other on the SAME `Sign` object and the same scripted bus;
 /// one `Run` per operation (its slice of the transcript).
 fn execute_seq(c: &ConvCase, ops: &[OpKind], stop_when_exhausted: bool) -> Result<Vec<Run>, String> {
-    let (sign_type, _, _, w, h) = TYPES[c.sign_type as usize % 11];
+    let (sign_type, _, _, _, _) = TYPES[c.sign_type as usize % 11];
     let bus = Rc::new(RefCell::new(ScriptBus {
         own: c.addr,
         bus_error_kind: c.bus_error_kind,
@@ -175,7 +193,14 @@ fn execute_seq(c: &ConvCase, ops: &[OpKind], stop_when_exhausted: bool) -> Resul
     }));
     let sign = Sign::new(bus.clone(), Address(c.addr), sign_type);
     let page_bytes = make_pages(c);
-    let pages: Vec<Page<'_>> = page_bytes.iter().map(|b| Page::from_bytes(w, h, &b[..]).expect("page of the sign's size")).collect();
+    let pages: Vec<Page<'_>> = page_bytes
+        .iter()
+        .enumerate()
+        .map(|(p, b)| {
+            let (w, h) = page_dims(c, p as u8);
+            Page::from_bytes(w, h, &b[..]).expect("page of the padded size")
+        })
+        .collect();
     let mut runs = vec![];
     for op in ops {
         let start = bus.borrow().transcript.len();
@@ -337,6 +362,10 @@ pub fn alphabet(own: u16, foreign: u16) -> Vec<Reply> {
     }
     v.push(Reply::None);
     v.push(Reply::Msg(M::Goodbye(own)));
+    // controller-type messages carrying another address (another controller's traffic is not a reply either)
+    v.push(Reply::Msg(M::Query(foreign)));
+    v.push(Reply::Msg(M::PixelsComplete(foreign)));
+    v.push(Reply::Msg(M::Goodbye(foreign)));
     v.push(Reply::Msg(M::Unknown { addr: own, ty: 0x4, data: vec![0x07, 0x00] }));
     v.push(Reply::BusError);
     v.push(Reply::Echo);
@@ -416,7 +445,7 @@ fn run_tree(ctx: &Ctx, invariants_only: bool) {
     // split each job by its first reply symbol so that the work spreads over the workers
     let mut units: Vec<(usize, usize)> = vec![];
     for (j, _) in jobs.iter().enumerate() {
-        for s in 0..43 {
+        for s in 0..alphabet(0, 1).len() {
             units.push((j, s));
         }
     }
@@ -425,7 +454,7 @@ fn run_tree(ctx: &Ctx, invariants_only: bool) {
         let (j, s) = units[u as usize];
         let (op, t, pages, cap, own, foreign) = jobs[j];
         let alpha = alphabet(own, foreign);
-        let base = ConvCase { op, addr: own, sign_type: t, pages, page_seed: 7 + j as u64, script: vec![], bus_error_kind: (j % 5) as u8 };
+        let base = ConvCase { op, addr: own, sign_type: t, pages, page_seed: 7 + j as u64, script: vec![], bus_error_kind: (j % 10) as u8 };
         let mut ts = TreeStats { nodes: 0, leaves: 0, truncated: 0, max_depth: 0 };
         let mut script = vec![Choice::Symbol(alpha[s].clone())];
         if s == 0 {
@@ -446,7 +475,7 @@ fn run_tree(ctx: &Ctx, invariants_only: bool) {
     ctx.part_done(
         "reply-script-tree",
         g.2 == 0,
-        json!({"jobs": jobs.len(), "alphabet": 43, "nodes": g.0, "complete_conversations": g.1, "truncated_at_depth_cap": g.2, "max_script_length": g.3,
+        json!({"jobs": jobs.len(), "alphabet": alphabet(0, 1).len(), "nodes": g.0, "complete_conversations": g.1, "truncated_at_depth_cap": g.2, "max_script_length": g.3,
                "page_switch_depth_cap": switch_depth, "address_pairs": addr_pairs}),
     );
 }
@@ -456,6 +485,7 @@ fn run_tree(ctx: &Ctx, invariants_only: bool) {
 
 fn choice_strategy(own: u16) -> impl Strategy<Value = Choice> {
     let foreign = proptest::sample::select(vec![own.wrapping_add(1), own.wrapping_sub(1), own ^ 0x0100, 0u16, own.swap_bytes() ^ 1]);
+    let foreign2 = foreign.clone();
     prop_oneof![
         14 => (0u8..6).prop_map(Choice::Happy),
         1 => (0u8..13).prop_map(move |s| Choice::Symbol(Reply::Msg(M::Report(own, s)))),
@@ -465,6 +495,13 @@ fn choice_strategy(own: u16) -> impl Strategy<Value = Choice> {
         1 => Just(Choice::Symbol(Reply::None)),
         1 => Just(Choice::Symbol(Reply::BusError)),
         1 => Just(Choice::Symbol(Reply::Echo)),
+        1 => (foreign2, 0u8..5, 0u8..6).prop_map(|(a, k, o)| Choice::Symbol(Reply::Msg(match k {
+            0 => M::Hello(a),
+            1 => M::Query(a),
+            2 => M::Req(a, o),
+            3 => M::PixelsComplete(a),
+            _ => M::Goodbye(a),
+        }))),
     ]
 }
 
@@ -473,9 +510,9 @@ fn conv_strategy() -> impl Strategy<Value = ConvCase> {
         proptest::sample::select(vec![OpKind::Configure, OpKind::ConfigureIfNeeded, OpKind::SendPages, OpKind::SendPages, OpKind::ShowLoadedPage, OpKind::LoadNextPage, OpKind::ShutDown]),
         prop_oneof![3 => proptest::sample::select(vec![0u16, 3, 0x7F, 0x1234, 0xFFFF]), 2 => any::<u16>()],
         0u8..11,
-        0u8..=2,
+        0u8..=3,
         any::<u64>(),
-        0u8..5,
+        0u8..10,
     )
         .prop_flat_map(|(op, addr, sign_type, pages, page_seed, kind)| {
             (Just((op, addr, sign_type, pages, page_seed, kind)), proptest::collection::vec(choice_strategy(addr), 0..120))
